@@ -79,3 +79,18 @@ func tokOf(v reflect.Value) *Tok {
 	t, _ := v.Field(0).Interface().(*Tok)
 	return t
 }
+
+// namedSlice[fam-1][t]: the declared named slice type of family fam (1: SVt, 2: TVt) for carrier t.
+var namedSlice = [2][nCarriers]reflect.Type{
+	{reflect.TypeOf(SV0{}), reflect.TypeOf(SV1{}), reflect.TypeOf(SV2{}), reflect.TypeOf(SV3{}), reflect.TypeOf(SV4{}), reflect.TypeOf(SV5{}), reflect.TypeOf(SV6{}), reflect.TypeOf(SV7{})},
+	{reflect.TypeOf(TV0{}), reflect.TypeOf(TV1{}), reflect.TypeOf(TV2{}), reflect.TypeOf(TV3{}), reflect.TypeOf(TV4{}), reflect.TypeOf(TV5{}), reflect.TypeOf(TV6{}), reflect.TypeOf(TV7{})},
+}
+
+// sliceTypeOf: the Go slice type for element type t; fam 1 or 2 selects a named slice type when the
+// element is a carrier.
+func sliceTypeOf(t, fam int) reflect.Type {
+	if fam >= 1 && fam <= 2 && t < nCarriers {
+		return namedSlice[fam-1][t]
+	}
+	return reflect.SliceOf(typeTab[t])
+}
